@@ -5,6 +5,7 @@ package models
 func vUF(name string, outLen int, parts ...[]byte) []byte { panic("symbolic only") }
 func vUFN(name string, outLen int, parts ...[]byte) []byte { panic("symbolic only") }
 func vBytesLess(a, b []byte) bool                         { panic("symbolic only") }
+func vConcreteLen(a []byte) bool                          { panic("symbolic only") }
 func vUFBool(name string, parts ...[]byte) bool           { panic("symbolic only") }
 func vFresh(name string, n int) []byte                    { panic("symbolic only") }
 func vFreshBool(name string) bool                         { panic("symbolic only") }
